@@ -1,7 +1,7 @@
 (** C12 — Pattern matching implements shell pattern notation in all four removal modes.
     Only property theorems; each is closed by [exact] of a lemma proved in Pattern/. *)
 From GoSh Require Import Base.Bytes Pattern.Regex Pattern.PCompile Pattern.Match Pattern.PSpec
-     Pattern.RegexProofs Pattern.MatchProofs.
+     Pattern.RegexProofs Pattern.MatchProofs Pattern.Collating Expand.QuotedLiteral.
 
 (** For every pattern item list (hence every well-formed pattern, whatever compile translates it
     to) and every subject, the model of Match returns exactly the longest / shortest prefix /
@@ -68,3 +68,24 @@ Example C12_witness :
   option_map raw (match_items [RStar :: [RLit 98]%N] mSS s) = Some [98]%N /\
   option_map raw (match_items [RStar :: [RLit 98]%N] mSL s) = Some [97; 88; 98; 89; 98]%N.
 Proof. vm_compute. repeat split. Qed.
+
+(** Several patterns match exactly when one of them does: none matches when there is none. *)
+Theorem C12_no_pattern_no_match : forall mode s, match_model [] mode s = MNoMatch.
+Proof. exact no_pattern_no_match. Qed.
+Print Assumptions C12_no_pattern_no_match.
+
+(** A bracketed metacharacter matches only itself, also when it is written as a collating symbol
+    [.x.] or an equivalence class [=x=]: the expression [[.x.]] compiles to one class whose only
+    member is x; the text between the delimiters does not reach the regular expression as written
+    (any other content is rejected by the compiler). *)
+Theorem C12_collating_single_character :
+  forall g d x f rest,
+    (d = 46 \/ d = 61)%N -> x <> RuneError -> (0 < f)%nat ->
+    citems f g (91 :: 91 :: d :: x :: d :: 93 :: 93 :: rest)%N =
+    match citems (f - 1) g rest with
+    | COk l => COk ((RClass false [CChar x], 91%N :: txt (emit [x] ++ [93%N])) :: l)
+    | CErr => CErr
+    | CUnmodelled => CUnmodelled
+    end.
+Proof. exact collating_single. Qed.
+Print Assumptions C12_collating_single_character.
